@@ -55,6 +55,8 @@ pub struct StreamSource {
     burst_left: usize,
     /// 0 mixed, 1 comment lines only, 2 blank lines only
     burst_kind: u8,
+    /// how blank lines look during the current burst: 0 empty, 1 always with blanks, 2 either
+    blank_style: u8,
     pub calls: u64,
     pub interrupted: u64,
     pub items_generated: u64,
@@ -81,6 +83,7 @@ impl StreamSource {
             aig_code: 2,
             burst_left: 0,
             burst_kind: 0,
+            blank_style: 0,
             calls: 0,
             interrupted: 0,
             items_generated: 0,
@@ -138,6 +141,7 @@ impl StreamSource {
         if self.burst_left == 0 && self.burst_pct > 0 && rng.below(10_000) < self.burst_pct as usize {
             self.burst_left = 1 + rng.below(200_000);
             self.burst_kind = rng.below(3) as u8;
+            self.blank_style = rng.below(3) as u8;
         }
         let filler_ok = matches!(self.kind, PKind::Cnf | PKind::Wcnf | PKind::Gcnf | PKind::Btor2);
         if filler_ok && (self.burst_left > 0 || rng.chance(1, 12)) {
@@ -148,9 +152,22 @@ impl StreamSource {
                 (true, 2) => 0,
                 _ => rng.below(3),
             };
+            let blanks: &[u8] = match (self.blank_style, rng.below(2)) {
+                (0, _) | (2, 0) => b"",
+                _ => {
+                    if rng.chance(1, 2) {
+                        b"  "
+                    } else {
+                        b" "
+                    }
+                }
+            };
             if self.kind == PKind::Btor2 {
                 match pick {
-                    0 => p.push(b'\n'),
+                    0 => {
+                        p.extend_from_slice(blanks);
+                        p.push(b'\n')
+                    }
                     _ => {
                         p.push(b';');
                         let n = rng.below(m.min(60));
@@ -160,7 +177,10 @@ impl StreamSource {
                 }
             } else {
                 match pick {
-                    0 => p.push(b'\n'),
+                    0 => {
+                        p.extend_from_slice(blanks);
+                        p.push(b'\n')
+                    }
                     _ => {
                         p.extend_from_slice(b"c ");
                         let n = if rng.chance(1, 20) { rng.below(m - 3) } else { rng.below(m.min(60)) };
